@@ -154,4 +154,24 @@ prop('C09',
      assumptions=['absence of hidden state (no statics / interior mutability / threads in frost-core)',
                   'public-package entry == G*signing share needs equal commitment lengths (premise; enforced by part2 for the set it is given)'],
      design_ref='DESIGN.md section 4 C09')
+prop('C15',
+     level_text='For every ciphersuite (abstract field/group, H3 an arbitrary deterministic function), every signing share and every random '
+                'source (ghost byte stream + position): Verus proves the real text of Nonce::new / nonce_generate_from_random_bytes / '
+                'NonceCommitment::from(&Nonce|Nonce) / SigningCommitments::new / SigningNonces::from_nonces / SigningNonces::new / preprocess / commit '
+                '(and SerializableScalar::serialize) against contracts stating the whole result and the exact consumption of the source: 32 bytes per '
+                'nonce, 64 per pair (hiding from [p,p+32), binding from the 32 further bytes [p+32,p+64)), 64*k for preprocess(k) with pair j built from '
+                'segment [p+64j,p+64j+64); nonce = H3(bytes || SerializeScalar(share)) in this order; commitments = (G*hiding, G*binding) and '
+                'commitments[j] == SigningCommitments::from(&nonces[j]); commit == preprocess(1) and its two expect()s cannot panic. Lemmas: the H3 '
+                'preimage is injective in (bytes, share); equal nonces from different (bytes, share) are an H3 collision; commitment is the identity '
+                'iff the nonce is zero; different nonces have different commitments.',
+     level_note='NOT decided: "nonces differ whenever bytes or share differ" beyond the preimage level and "no nonce/commitment is ever zero/identity" are '
+                'statements about H3 (collision freeness / never hitting 0; the code does not check for a zero nonce) -- reduced by lemmas to exactly those '
+                'hash statements, not proved; "independent" pairs is decided only as "disjoint, consecutive stream segments", not statistically. Assumed: '
+                'the outlined idiom A.iter().chain(B.iter()).cloned().collect() == A ++ B (statement about std, operand holes: exchanging the operands IS '
+                'decided), <[T]>::to_vec, the ghost-stream model of CryptoRng::fill_bytes (T9).',
+     assumptions=['T9 ghost-stream model: fill_bytes(buf) writes stream[pos..pos+len) and advances pos by len; the stream is independent of library state',
+                  'T4 scalar codec: spec_ser is canonical and of fixed length (used only by the injectivity lemma)',
+                  'T5 H3 is a deterministic function of its input; nothing else about it is used',
+                  'outlined std idiom chain+cloned+collect on byte slices equals concatenation'],
+     design_ref='DESIGN.md section 4 C15')
 prop('CDEV', level_text='dev', level_note='dev', claimed=False)
